@@ -118,7 +118,7 @@ Proof.
       destruct (handle_rp_frame a b c d e f g') as [e1 st2|st2|code|k] eqn:HH end; try discriminate.
     + (* the handler returned *)
       destruct (handle_post hdrs client fx Q _ _ _ _ g e1 st2 Hi1 HH) as (C1 & S2).
-      destruct (handle_frame _ _ _ _ _ _ _ _ _ HH) as (F1 & F2 & F3 & F4). simp_proj.
+      destruct (handle_frame _ _ _ _ _ _ _ _ _ HH) as (F1 & F2 & F3 & F4 & _). simp_proj.
       assert (Hc2 : cur_ok st2).
       { intros n0 E. rewrite F2 in E. subst cur'. destruct (n - chunk =? 0); [discriminate|].
         inversion E; subst. apply F4. reflexivity. }
@@ -128,7 +128,7 @@ Proof.
       split; [apply chain_app; [exact C1|rewrite <- F1; exact C2]|].
       split; [rewrite gl_app; exact S3|]. split; [exact Hc3|]. split; congruence.
     + (* StreamBlocked *)
-      destruct (handle_blocked _ _ _ _ _ _ _ _ HH) as (B1 & B2 & B3 & B4 & B5 & B6 & B7). simp_proj.
+      destruct (handle_blocked _ _ _ _ _ _ _ _ HH) as (B1 & B2 & B3 & B4 & B5 & B6 & B7 & _). simp_proj.
       inversion H; subst; clear H. exists []. rewrite app_nil_r. cbn [chain gl fold_left].
       split; [reflexivity|]. split; [exact Logic.I|].
       split; [eapply sinv_core; [| | |exact Hi]; simp_proj; assumption|].
@@ -191,6 +191,60 @@ Proof.
   match type of H with (if ?c then _ else _) = _ => destruct c end; [discriminate|].
   inversion H; subst evs st'; clear H.
   split; [rewrite <- Hid; exact C1|]. split; [exact S1|]. split; [exact K1|]. split; congruence.
+Qed.
+
+
+(* ---------------------------------------------------------------- blocked streams wait between two frames *)
+Definition kinv (st : hstream) : Prop :=
+  (s_blocked st = false -> s_btype st = None) /\ (s_blocked st = true -> s_cur st = None).
+
+Lemma rq_loop_k : forall O fuel fin st b evs0 evs st',
+  kinv st -> s_blocked st = false ->
+  rq_loop fuel fx O client fin st b evs0 = RVal evs st' -> kinv st'.
+Proof.
+  intros O. induction fuel as [|f IH]; intros fin st b evs0 evs st' (K1 & K2) Hb H.
+  - cbn [rq_loop] in H. inversion H; subst. split; simp_proj; auto.
+  - rewrite rq_loop_S in H.
+    destruct (is_nil b). { inversion H; subst. split; simp_proj; auto. }
+    destruct (rq_hdr st b) as [[[t n] b2]|] eqn:Hh.
+    2:{ inversion H; subst. split; simp_proj; auto. }
+    destruct (is_none (s_cur st) && (t =? 65)).
+    { inversion H; subst. split; simp_proj; auto. }
+    cbv zeta in H.
+    destruct (negb (t =? 0) && (Z.min n (Zlen b2) <? n)) eqn:BR.
+    { inversion H; subst. split; simp_proj; auto. intro; congruence. }
+    match type of H with context [handle_rp_frame ?a ?b ?c ?d ?e ?f ?g'] =>
+      destruct (handle_rp_frame a b c d e f g') as [e1 st2|st2|code|k] eqn:HH end; try discriminate.
+    + destruct (handle_frame _ _ _ _ _ _ _ _ _ HH) as (_ & _ & _ & _ & F5 & F6 & _). simp_proj.
+      eapply IH; [| |exact H].
+      * split; [rewrite F6; auto | rewrite F5, Hb; discriminate].
+      * congruence.
+    + destruct (handle_blocked _ _ _ _ _ _ _ _ HH) as (_ & _ & _ & _ & B5 & _ & B7 & _). simp_proj.
+      inversion H; subst. split; simp_proj; [discriminate|]. intros _. rewrite B5.
+      destruct (n - Z.min n (Zlen b2) =? 0) eqn:E; [reflexivity|]. lia.
+Qed.
+
+Lemma rq_recv_k : forall O st0 data fin evs st',
+  kinv st0 -> rq_recv fx O client st0 data fin = RVal evs st' -> kinv st'.
+Proof.
+  intros O st0 data fin evs st' K0 H. unfold rq_recv in H.
+  set (st := H3Parse.set_ended (set_buf st0 (s_buf st0 ++ data)) (H3Parse.s_ended st0 || fin)) in *.
+  assert (K : kinv st) by exact K0. clearbody st. cbv zeta in H.
+  destruct (s_blocked st) eqn:Hb.
+  { inversion H; subst. exact K. }
+  destruct K as (K1 & K2).
+  destruct (s_session st) as [sess|].
+  { inversion H; subst. split; simp_proj; auto. }
+  destruct (match s_cur st with
+            | Some (t, n) => if (t =? 0) && (Zlen (s_buf st) <? n) && negb (fx_trunc fx && fin) then Some n else None
+            | None => None end) as [n|] eqn:SC.
+  { inversion H; subst. split; simp_proj; auto. intro; congruence. }
+  destruct (fin && is_nil (s_buf st) && (negb (fx_trunc fx) || is_none (s_cur st))).
+  { destruct (check_cl st); [|discriminate]. inversion H; subst. split; auto. }
+  match type of H with context [rq_loop ?a ?b ?c ?d ?e ?f ?g' ?h] =>
+    destruct (rq_loop a b c d e f g' h) as [evs1 st1|code|k] eqn:HL end; try discriminate.
+  match type of H with (if ?c then _ else _) = _ => destruct c end; [discriminate|].
+  inversion H; subst. eapply rq_loop_k; [| |exact HL]; [split; simp_proj; auto|exact Hb].
 Qed.
 
 End Loop.
